@@ -109,6 +109,7 @@ def _helpers(ck: Checker, prog: Program):
         ck.violation("C11.R1", f.qualname, "order preserving flatten", "_flatten_list does not extend in iteration order", loc=f.loc())
     S.check_estimators(ck, prog, "C11.R2")
     S.check_alias_discipline(ck, prog, "C11.R2", floor=3)
+    S.check_distribution_names(ck, prog, "C11.R2")
 
 
 def _weights(ck: Checker, prog: Program, cls):
